@@ -10,6 +10,8 @@
 (*   Restore   (while replaying) input handler: the bytes are written to   *)
 (*             the path named by the *replayed* call; output handler: the  *)
 (*             bytes are available from a holder object                    *)
+(* The restore does not look at what is at the path (cfg.pre): whatever is  *)
+(* there is replaced.                                                      *)
 (* Sizes are classes around the limit; contents are tokens the harness     *)
 (* concretises (empty, binary with NULs and high bytes, CR/LF newlines,    *)
 (* text equal to the placeholder, random bytes).                           *)
@@ -22,7 +24,9 @@ CONSTANTS Sizes,      \* subset of {"empty", "tiny", "Lm1", "L", "Lp1", "big"}
           Roles,      \* subset of {"input", "output"}
           PathBys,    \* subset of {"position", "keyword"}
           Cassettes,  \* cassette types
-          ReplayPaths \* subset of {"same", "other"}: does the replayed call name the recorded path or another one
+          ReplayPaths, \* subset of {"same", "other"}: does the replayed call name the recorded path or another one
+          Pres        \* what is at the replayed path when the replay starts: subset of {"absent", "sameSizeOtherBytes",
+                      \* "shorter", "identical"} (inputs only; a restore replaces whatever is there)
 
 VARIABLES cfg, phase, recorded, wasRead, restored, restoredAt
 vars == <<cfg, phase, recorded, wasRead, restored, restoredAt>>
@@ -31,11 +35,12 @@ Above(size) == size \in {"Lp1", "big"}
 \* the placeholder-length file only exists as the "tiny" size
 ContentOK(size, content) == (content = "placeholderText") <=> (size = "tiny")
 
-Init == /\ \E s \in Sizes, c \in Contents, l \in LimitSrcs, r \in Roles, p \in PathBys, k \in Cassettes, rp \in ReplayPaths :
+Init == /\ \E s \in Sizes, c \in Contents, l \in LimitSrcs, r \in Roles, p \in PathBys, k \in Cassettes, rp \in ReplayPaths, pre \in Pres :
               /\ ContentOK(s, c)
               /\ (s = "empty" => c = "emptyBytes") /\ (c = "emptyBytes" => s = "empty")
-              /\ (r = "output" => rp = "same")
-              /\ cfg = [size |-> s, content |-> c, limitSrc |-> l, role |-> r, pathBy |-> p, cassette |-> k, replayPath |-> rp]
+              /\ (r = "output" => rp = "same" /\ pre = "absent")
+              /\ cfg = [size |-> s, content |-> c, limitSrc |-> l, role |-> r, pathBy |-> p, cassette |-> k, replayPath |-> rp,
+                        pre |-> pre]
         /\ phase = "start" /\ recorded = "" /\ wasRead = FALSE /\ restored = "" /\ restoredAt = ""
 
 Prepare == /\ phase = "start"
